@@ -53,18 +53,18 @@ type Area interface {
 }
 
 type metaOut struct {
-	Cases       int                 `json:"cases"`
-	Events      int                 `json:"events"`
-	Nontrivial  int                 `json:"distinct_nontrivial"`
-	Ops         map[string]int      `json:"op_histogram"`
-	Outs        map[string]int      `json:"outcome_histogram"`
-	Extra       map[string]int      `json:"extra_max"`
-	Rule        string              `json:"rule"`
-	Samples     []json.RawMessage   `json:"samples"`
-	Shards      []string            `json:"shards"`
-	Seed        uint64              `json:"seed"`
-	ExecErrors  []string            `json:"exec_errors"`
-	Skipped     int                 `json:"skipped"`
+	Cases      int               `json:"cases"`
+	Events     int               `json:"events"`
+	Nontrivial int               `json:"distinct_nontrivial"`
+	Ops        map[string]int    `json:"op_histogram"`
+	Outs       map[string]int    `json:"outcome_histogram"`
+	Extra      map[string]int    `json:"extra_max"`
+	Rule       string            `json:"rule"`
+	Samples    []json.RawMessage `json:"samples"`
+	Shards     []string          `json:"shards"`
+	Seed       uint64            `json:"seed"`
+	ExecErrors []string          `json:"exec_errors"`
+	Skipped    int               `json:"skipped"`
 }
 
 func addHist(dst, src map[string]int) {
